@@ -44,7 +44,31 @@ type famOutcome struct {
 	Sub  string // err: rpc|plain|wrap ; panic: str|err|int
 	Typ  string // err rpc: RpcError.Type
 	Msg  string // err: message ; panic str/err: payload
-	Int  int    // panic int
+	Int  int    // panic int ; err shared: sentinel slot
+	// err rpcfull: the other exported fields of the RpcError the handler pre-populates
+	RID, EKind, TB string
+}
+
+// famSharedErrs are package-level sentinel errors: a handler scripted `err shared <slot>`
+// returns the SAME *RpcError value on every call. Re-created at the start of every case so a
+// case replays from its script alone.
+var famSharedErrs [3]*vgirpc.RpcError
+
+func famResetShared() {
+	famSharedErrs = [3]*vgirpc.RpcError{
+		{Type: "LookupError", Message: "not found"},
+		{Type: "ValueError", Message: "shared sentinel"},
+		{},
+	}
+}
+
+func init() { famResetShared() }
+
+func famSharedSlot(n int) int {
+	if n < 0 || n >= len(famSharedErrs) {
+		return len(famSharedErrs) - 1
+	}
+	return n
 }
 
 type famUnaryScript struct {
@@ -145,6 +169,16 @@ func famParseOutcome(ts []string) (famOutcome, []string, error) {
 		case "plain", "wrap":
 			o.Msg, ts, err = famTakeX(ts)
 			return o, ts, err
+		case "rpcfull":
+			for _, f := range []*string{&o.Typ, &o.Msg, &o.RID, &o.EKind, &o.TB} {
+				if *f, ts, err = famTakeX(ts); err != nil {
+					return o, nil, err
+				}
+			}
+			return o, ts, nil
+		case "shared":
+			o.Int, ts, err = famTakeN(ts)
+			return o, ts, err
 		}
 	case "panic":
 		o.Sub = ts[1]
@@ -169,8 +203,13 @@ func (o famOutcome) tokens() []string {
 	case "ret":
 		return []string{"ret", o.Val}
 	case "err":
-		if o.Sub == "rpc" {
+		switch o.Sub {
+		case "rpc":
 			return []string{"err", "rpc", XS(o.Typ), XS(o.Msg)}
+		case "rpcfull":
+			return []string{"err", "rpcfull", XS(o.Typ), XS(o.Msg), XS(o.RID), XS(o.EKind), XS(o.TB)}
+		case "shared":
+			return []string{"err", "shared", strconv.Itoa(o.Int)}
 		}
 		return []string{"err", o.Sub, XS(o.Msg)}
 	default:
@@ -186,8 +225,11 @@ func (o famOutcome) failure() (bool, string) {
 	switch o.Kind {
 	case "err":
 		switch o.Sub {
-		case "rpc":
+		case "rpc", "rpcfull":
 			return true, o.Typ + ": " + o.Msg
+		case "shared":
+			e := famSharedErrs[famSharedSlot(o.Int)]
+			return true, e.Type + ": " + e.Message
 		case "plain":
 			return true, o.Msg
 		default:
@@ -211,6 +253,10 @@ func (o famOutcome) act() error {
 		switch o.Sub {
 		case "rpc":
 			return &vgirpc.RpcError{Type: o.Typ, Message: o.Msg}
+		case "rpcfull":
+			return &vgirpc.RpcError{Type: o.Typ, Message: o.Msg, RequestID: o.RID, Kind: o.EKind, Traceback: o.TB}
+		case "shared":
+			return famSharedErrs[famSharedSlot(o.Int)] // the same value every time
 		case "plain":
 			return errors.New(o.Msg)
 		default:
